@@ -63,6 +63,8 @@ BODIES = {
     "len_le1": ("return s.str.len() <= 1", "return s.lazyframe.select(pl.col(s.key).str.len_chars() <= 1)"),
     "df_rows_le3": ("return len(s) <= 3", "return s.lazyframe.select(pl.len() <= 3)"),
     "df_first_gt0": ("return s.iloc[:, 0] > 0", "return s.lazyframe.select(pl.first() > 0)"),
+    # reads a private class attribute through `cls`: the check means something different in a subclass that overrides `_limit`
+    "lt_cls_limit": ("return s < cls._limit", "return s.lazyframe.select(pl.col(s.key) < cls._limit)"),
     "p_add1": ("return s + 1", None),
     "p_abs": ("return s.abs()", None),
     "p_neg": ("return -s", None),
@@ -72,12 +74,13 @@ BODIES = {
 _FN_CACHE = {}
 
 
-def plain_fn(body, backend):
-    key = (body, backend)
+def plain_fn(body, backend, limit=None):
+    key = (body, backend, limit)
     if key not in _FN_CACHE:
         src = BODIES[body][0 if backend == "pandas" else 1]
         ns = {}
-        exec("import polars as pl\ndef f(s):\n    " + src, ns)  # noqa
+        # the reference function gets the class attribute value the model class resolves through its MRO
+        exec("import polars as pl\nclass cls:\n    _limit = %r\ndef f(s):\n    %s" % (limit, src), ns)  # noqa
         _FN_CACHE[key] = ns["f"]
     return _FN_CACHE[key]
 
@@ -92,9 +95,9 @@ def fld(attr, a=None, field=None):
     return {"attr": attr, "ann": a, "field": field}
 
 
-def klass(name, bases, fields=(), config=None, config_base="own", methods=()):
+def klass(name, bases, fields=(), config=None, config_base="own", methods=(), attrs=None):
     return {"name": name, "bases": list(bases), "fields": list(fields), "config": config, "config_base": config_base,
-            "methods": list(methods)}
+            "methods": list(methods), "attrs": dict(attrs or {})}
 
 
 def base_hierarchy(shape, backend):
@@ -133,6 +136,7 @@ def _methods_alphabet(backend):
         {"kind": "check", "mname": "chk", "fields": ["a", "c"], "regex": False, "kwargs": {}, "body": "lt3"},
         {"kind": "check", "mname": "chk_rx", "fields": ["^[ac]$"], "regex": True, "kwargs": {}, "body": "lt3"},
         {"kind": "check", "mname": "chk_b", "fields": ["b"], "regex": False, "kwargs": {"raise_warning": True}, "body": "len_le1"},
+        {"kind": "check", "mname": "chk", "fields": ["a"], "regex": False, "kwargs": {}, "body": "lt_cls_limit"},
         {"kind": "check", "mname": "chk_missing", "fields": ["zz"], "regex": False, "kwargs": {}, "body": "gt0"},
         {"kind": "dataframe_check", "mname": "dfchk", "fields": [], "regex": False, "kwargs": {}, "body": "df_rows_le3"},
         {"kind": "dataframe_check", "mname": "dfchk", "fields": [], "regex": False, "kwargs": {"name": "named_df"}, "body": "df_first_gt0"},
@@ -204,6 +208,7 @@ def hierarchy_edits(h, core=False):
             eds.append([L, "config", {"multiindex_name": "mi", "multiindex_strict": True}, "own"])
         for m in _methods_alphabet(backend):
             eds.append([L, "method", m])
+        eds.append([L, "attr", {"_limit": 2}])
     return eds
 
 
@@ -281,6 +286,10 @@ def apply_edit(h, e):
         if any(x["mname"] == m["mname"] for x in c["methods"]):
             return None
         c["methods"].append(m)
+        if m["body"] == "lt_cls_limit":
+            c.setdefault("attrs", {}).setdefault("_limit", 3)
+    elif kind == "attr":
+        c.setdefault("attrs", {}).update(e[2])
     else:
         raise AssertionError(e)
     return h
@@ -299,6 +308,8 @@ def edit_target(e):
     if k == "method":
         m = e[2]
         return "method:" + m["kind"].replace("dataframe_", "df") + ":" + m["mname"]
+    if k == "attr":
+        return "method:check:chk"    # the class attribute only matters through the check that reads it
     return k
 
 
@@ -316,6 +327,8 @@ def edit_kind(e):
         return f"{e[0]}.add_index:{e[2]}:{e[3]}"
     if k == "config":
         return f"{e[0]}.config[{e[3]}]:{'+'.join(f'{a}={b}' for a, b in sorted(e[2].items()))}"
+    if k == "attr":
+        return f"{e[0]}.attr:{'+'.join(sorted(e[2]))}"
     if k == "method":
         m = e[2]
         return f"{e[0]}.{m['kind']}:{m['mname']}:{m['body']}" + (":" + "+".join(sorted(m["kwargs"])) if m["kwargs"] else "") + (":regex" if m["regex"] else "")
@@ -339,6 +352,8 @@ def class_source(h, c):
     backend = h["backend"]
     lines = [f"class {c['name']}({', '.join(c['bases']) or 'pa.DataFrameModel'}):"]
     body = []
+    for k_, v_ in (c.get("attrs") or {}).items():
+        body.append(f"{k_} = {_lit(v_)}")
     for f in c["fields"]:
         rhs = ""
         if f["field"] is not None:
@@ -451,6 +466,11 @@ def compile_ref(h, cname):
                 nm = kw.pop("name", None) or m["mname"]
                 if kind in ("check", "dataframe_check"):
                     item = {"k": "fn", "fn": m["body"], "name": nm, "kw": kw}
+                    if m["body"] == "lt_cls_limit":
+                        lim = next((_cls(h, x).get("attrs", {})["_limit"] for x in mro if "_limit" in _cls(h, x).get("attrs", {})), None)
+                        if lim is None:
+                            raise RefUnspecified("check reads cls._limit but no class defines it")
+                        item["limit"] = lim   # the value `cls._limit` has for the class being compiled
                 else:
                     item = {"fn": m["body"], "name": nm, "kw": kw}
                 if kind == "dataframe_check":
@@ -529,7 +549,7 @@ def build_ref_schema(spec, backend):
 
 def _extra_check_builder(pa, c, backend):
     kw = dict(c.get("kw") or {})
-    return pa.Check(plain_fn(c["fn"], backend), name=c["name"], **kw)
+    return pa.Check(plain_fn(c["fn"], backend, c.get("limit")), name=c["name"], **kw)
 
 
 def _install_spec_hooks(backend):
